@@ -306,6 +306,10 @@ func RunCheck(o CheckOpts) int {
 		incon += n
 	}
 
+	// an oracle that is inconsistent with its own cross-check on more than 1 % of the cases is broken
+	if sc := merged.Counters["oracle_selfcheck_failures"]; sc > 0 && sc*100 > int64(merged.Evaluations) {
+		machinery = append(machinery, fmt.Sprintf("%d oracle self-check failures in %d cases: the oracle, not xjs, needs attention", sc, merged.Evaluations))
+	}
 	writeEvidence(p, o, merged, planned, nviol, len(known), machinery, time.Since(start))
 
 	for _, l := range lines {
